@@ -803,11 +803,15 @@ def _returns_a_value(f):
         return True
     if info.is_generator:
         return True
-    from .loops import _walk_own
-    for n in _walk_own(info.node):
+    todo = list(info.node.body)
+    while todo:
+        n = todo.pop()
+        if isinstance(n, (_ast.FunctionDef, _ast.AsyncFunctionDef, _ast.Lambda, _ast.ClassDef)):
+            continue        # a nested definition: its returns are not returns of this function
         if isinstance(n, _ast.Return) and n.value is not None and not (
                 isinstance(n.value, _ast.Constant) and n.value.value is None):
             return True
+        todo.extend(_ast.iter_child_nodes(n))
     return False
 
 
